@@ -115,10 +115,6 @@ def stepLine2 (line : String) : Option String :=
       let a ← parseBytes? a
       let z ← parseBytes? z
       pure (fmtOB (bufEqZ a (z ++ [NUL])) ++ " " ++ fmtOB (bufNeZ a (z ++ [NUL])))
-  | ["beqzu", a, z] => do
-      let a ← parseBytes? a
-      let z ← parseBytes? z
-      pure (fmtOB (bufEqZ a (z ++ [NUL])) ++ " " ++ fmtOB (bufNeZ a (z ++ [NUL])))
   | ["bufctor", k, a] => do
       let a ← parseBytes? a
       pure (fmtON (bufCtorSize (k == "c") a))
